@@ -95,7 +95,7 @@ def main():
         "setup_cmd": "./setup.sh",
         "hooks": {
             "guard": "cargo feature \"verif\" of the prometheus crate",
-            "enable": "harness depends on prometheus = { path = \"/repo\", features = [\"verif\"] }",
+            "enable": "harness depends on prometheus = { path = \"gen/repo\", features = [\"verif\"] }: a copy of /repo's current working tree refreshed by every check run (hooked_copy.py) in which std::sync / parking_lot paths are routed through crate::verif::{stdsync,plsync}",
             "baseline_off_cmd": "/verif/baseline.sh",
             "source_commits": [c.split()[0] for c in commits],
             "add_only": True,
